@@ -341,9 +341,29 @@ def r153_memory(ctx, rep):
     if not all(a0 in atoms for a0 in need[:2]):
         raise AnalysisError('anchor vanished: mode tests of MemorySource.open (%s)' % atoms)
 
-    def fresh_buffer(v, before):
+    def fresh_buffer(v, before, depth=0):
         v = resolve(v, before)
-        if not (isinstance(v, ast.Call) and not v.args and not v.keywords):
+        if not isinstance(v, ast.Call) or v.keywords:
+            return False
+        # a module-level factory: `def _newbuffer(mode, *initial): f = BytesIO if 'b' in mode else StringIO; return f(*initial)`
+        # called without anything for *initial
+        if isinstance(v.func, ast.Name) and depth < 2:
+            g = fn.module.functions.get(v.func.id)
+            if g is not None and g.cls is None:
+                if len(v.args) > len(g.posparams) or any(isinstance(a0, ast.Starred) for a0 in v.args):
+                    return False
+                rets = [x for x in own_nodes(g.node) if isinstance(x, ast.Return) and x.value is not None]
+                if len(rets) != 1:
+                    return False
+                pre = [b for b in g.node.body if b is not rets[0]]
+                rv = resolve(rets[0].value, pre)
+                if isinstance(rv, ast.Call) and not rv.keywords and all(
+                        isinstance(a0, ast.Starred) and norm(a0.value) == (g.vararg or '') for a0 in rv.args):
+                    f = rv.func
+                    alts = [f.body, f.orelse] if isinstance(f, ast.IfExp) else [f]
+                    return all(norm(x) in ('BytesIO', 'StringIO', 'io.BytesIO', 'io.StringIO') for x in alts)
+                return False
+        if v.args:
             return False
         f = v.func
         alts = [f.body, f.orelse] if isinstance(f, ast.IfExp) else [f]
@@ -823,10 +843,12 @@ def r1512(ctx, rep):
             n += 1
             v = y.value
             c = '%s.open: yield %s' % (cname, norm(v)[:50])
-            wraps = isinstance(v, ast.Call) and not (isinstance(v.func, ast.Attribute) and isinstance(v.func.value, ast.Name) and
-                                                     v.func.value.id in closed) and \
-                any(isinstance(a, ast.Name) and a.id in closed for a in list(v.args) + [k.value for k in v.keywords])
+            wrappers = [w for w in ast.walk(v) if isinstance(w, ast.Call) and
+                        not (isinstance(w.func, ast.Attribute) and isinstance(w.func.value, ast.Name) and w.func.value.id in closed) and
+                        any(isinstance(a, ast.Name) and a.id in closed for a in list(w.args) + [k.value for k in w.keywords])]
+            wraps = bool(wrappers)
             if wraps:
+                v = wrappers[0]
                 inner = [a.id for a in list(v.args) + [k.value for k in v.keywords] if isinstance(a, ast.Name) and a.id in closed][0]
                 rep.violated('R15.12', fn, c,
                              'the caller gets `%s`, a new object around `%s`, while the finally block closes `%s` only: whatever '
